@@ -25,7 +25,7 @@ def run_seed(d: Path, props):
             return d.name, None, "patch does not apply to the current tree: " + (p.stdout + p.stderr)[-200:]
         res = {}
         for pid in props:
-            env = dict(os.environ, FICKLING_REPO=str(root), SA_EVIDENCE_DIR=str(tmp / "ev"))
+            env = dict(os.environ, FICKLING_REPO=str(root), SA_EVIDENCE_DIR=str(tmp / "ev"), SA_JOBS=os.environ.get("SA_JOBS", "2"), SA_CACHE_DIR=os.environ.get("SA_CACHE_DIR", "/tmp/sa-cache"))
             q = subprocess.run([PY, "-m", "sa.check", pid], cwd=VERIF, env=env, capture_output=True, text=True, timeout=600)
             keys = [l.split("key=")[1].split(" at ")[0] for l in q.stdout.splitlines() if "finding: key=" in l]
             err = [l for l in q.stdout.splitlines() if l.startswith("ANALYSIS-ERROR")]
